@@ -433,6 +433,7 @@ def observe(problem, kind, method, strict, use_hessian, tol, r1, r2, lr, fault=N
     with warnings.catch_warnings(record=True) as wl:
         warnings.simplefilter("always")
         hook0 = warnings.showwarning
+        filters0, err0 = list(warnings.filters), np.geterr()
         try:
             patch(SS, "minimize", stub_minimize)
             patch(SO, "linprog", stub_linprog)
@@ -476,6 +477,7 @@ def observe(problem, kind, method, strict, use_hessian, tol, r1, r2, lr, fault=N
                 c["fun"] = f
         flush()
         hook1 = warnings.showwarning
+        globals_same = list(warnings.filters) == filters0 and np.geterr() == err0
     rl1 = sys.getrecursionlimit()
     c = problem._solver_cache
     lin = problem._is_linear_cache
@@ -483,7 +485,8 @@ def observe(problem, kind, method, strict, use_hessian, tol, r1, r2, lr, fault=N
             f"reclimit={'1000' if rl1 == rl0 else rl1} "
             f"cache={'None' if c is None else '(' + ' '.join(c.keys()) + ')'} lp={b01(problem._lp_cache is not None)} "
             f"lin={'None' if lin is None else b01(lin)} fired={b01(st['fired'])}")
-    info.update(hook_same=hook1 is hook0, reclimit_same=rl1 == rl0, events=ev, fired=st["fired"])
+    info.update(hook_same=hook1 is hook0, reclimit_same=rl1 == rl0, events=ev, fired=st["fired"],
+                globals_same=globals_same)
     return text, info
 
 
@@ -503,6 +506,9 @@ def feasibility_report(problem, values, tol=None, slack=1e-9):
             if worst is None or viol - allowed > worst["excess"]:
                 worst = {"what": f"constraint #{k} ({c.sense} 0) violated", "violation": viol, "allowed": allowed,
                          "excess": viol - allowed}
+        elif not c.is_satisfied(values, tol=allowed):
+            return {"what": f"Constraint.is_satisfied disagrees with Constraint.violation on constraint #{k}",
+                    "violation": viol, "allowed": allowed, "excess": 0.0}
     for v in problem.variables:
         x = values.get(v.name)
         if x is None:
@@ -571,20 +577,48 @@ SHAPES = {
                    "obj": [[3, []], [1, [[0, 2]]], [-2, [[0, 1]]], [1, []], [2, [[1, 2]]], [2, [[1, 1]]], [0.5, []]], "cons": []},
           "points": {"feas": [1.0, -0.5], "viol-lb": [-3.0, 0.0], "feas-corner": [2.0, 1.0]}},
 }
+# names: digit runs of different lengths, leading zeros, digits inside base names, prefixes of one another, brackets,
+# ≥ 11 elements of one base name — the spec order is NOT the natural order the solver vector uses
+_N_NAMES = ["x10", "x2", "x1", "x01", "a[10]", "a[2]", "a[0]", "ab", "a", "a1b10", "a1b2", "a[1]", "a[11]", "a[3]", "a[4]",
+            "a[5]", "a[6]", "a[7]", "a[8]", "a[9]"]
+SHAPES["N"] = {"spec": {"vars": [[nm, -40.0, 40.0, "continuous"] for nm in _N_NAMES], "sense": "max",
+                        "obj": [[float(i + 1), [[i, 1]]] for i in range(len(_N_NAMES))] + [[-0.5, [[0, 2]]], [5.0, []]],
+                        "cons": [[[[1.0, [[0, 1]]], [1.0, [[4, 1]]], [1.0, [[8, 1]]]], "<=", 30.0]]},
+               "points": {"feas": None, "viol-con": None}}
 # user-supplied start points per shape (the optimum / a corner of the box / an arbitrary point); every
 # row of the table cycles through: default start, default start, these, and "the point the solver returns"
 STARTS = {"A": [[1.0], [0.0]], "B": [[2.0, 1.0], [0.0, 2.0]], "C": [[1.0], [2.0]], "D": [[0.5], [-1.0]],
-          "E": [[1.0, 0.0], [0.0, 0.0]], "S": [[0.0, 0.0], [1.0, -1.0]], "T": [[1.0, -0.5], [-2.0, -1.0], [2.0, 1.0]]}
+          "E": [[1.0, 0.0], [0.0, 0.0]], "S": [[0.0, 0.0], [1.0, -1.0]], "T": [[1.0, -0.5], [-2.0, -1.0], [2.0, 1.0]],
+          "N": [[0.25 * i for i in range(len(_N_NAMES))]]}
+
+
+def _n_points():
+    """points of shape N in the SOLVER's order (problem.variables), each coordinate distinct"""
+    P, vs = build_problem(SHAPES["N"]["spec"])
+    order = [v.name for v in P.variables]
+    feas = [0.5 * (k + 1) - 3.0 for k in range(len(order))]
+    viol = list(feas)
+    for nm in ("x10", "a[10]", "a"):
+        viol[order.index(nm)] = 20.0
+    SHAPES["N"]["points"] = {"feas": feas, "viol-con": viol}
+    SHAPES["N"]["order"] = order
 
 
 def objective_at(spec, x):
-    return poly_eval(spec["obj"], x) if len(x) >= len(spec["vars"]) else 0.0
+    if len(x) < len(spec["vars"]):
+        return 0.0
+    if spec is SHAPES["N"]["spec"]:
+        order = SHAPES["N"]["order"]          # x is in solver order: permute into the spec's order
+        x = [x[order.index(nm)] for nm, *_ in spec["vars"]]
+    return poly_eval(spec["obj"], x)
 
 
 def stub_rows(rng, thorough):
     """(shape, method, tol, r1, r2) rows: exhaustive over the decision cells, r2 exhaustive on the
     rows where the retry can happen"""
     rows = []
+    if SHAPES["N"]["points"]["feas"] is None:
+        _n_points()
     for sname, sh in SHAPES.items():
         spec, pts = sh["spec"], sh["points"]
         neg = -1.0 if spec["sense"] == "max" else 1.0
@@ -849,6 +883,8 @@ def alphabet_shapes():
     included (constant on the left of - / **), products, quotients, functions and vector nodes.
     x ∈ [1, 10], y ∈ [0.5, 4], v ∈ [0.5, 3]³: every shape is finite on the box."""
     from optyx.core import functions as F
+    from optyx.core.expressions import Constant
+    from optyx.core.parameters import Parameter
     from optyx.core.vectors import norm
 
     c3 = np.array([1.0, -2.0, 0.5])
@@ -873,10 +909,45 @@ def alphabet_shapes():
         "(3-v).sum()": lambda x, y, v: (3.0 - v).sum(), "c@(v*v)": lambda x, y, v: c3 @ (v * v),
         "v[0]/v[1]": lambda x, y, v: v[0] / v[1], "x+1/v[2]": lambda x, y, v: x + 1.0 / v[2],
         "c@v+1/x": lambda x, y, v: c3 @ v + 1.0 / x,
+        # wrappers (±const, k·, /k, neg, reflected) around reduction nodes at the root
+        "-(v.sum())": lambda x, y, v: -(v.sum()), "2*(c@v)": lambda x, y, v: 2.0 * (c3 @ v), "(v.sum())/2": lambda x, y, v: v.sum() / 2.0,
+        "3-v.sum()": lambda x, y, v: 3.0 - v.sum(), "v.sum()+1": lambda x, y, v: v.sum() + 1.0, "1/(v.sum())": lambda x, y, v: 1.0 / v.sum(),
+        "-(c@v)-x": lambda x, y, v: -(c3 @ v) - x, "(c@v)*2-3": lambda x, y, v: (c3 @ v) * 2.0 - 3.0,
+        "2-norm(v)": lambda x, y, v: 2.0 - norm(v), "-(v.dot(v))": lambda x, y, v: -(v.dot(v)), "v[::-1].sum()": lambda x, y, v: v[::-1].sum(),
+        "c2@v[::2]": lambda x, y, v: np.array([1.0, -2.0]) @ v[::2], "v[1:].sum()-v[0]": lambda x, y, v: v[1:].sum() - v[0],
+        # constant-valued compound sub-expressions wherever a number can stand; parameters
+        "x**0+y": lambda x, y, v: x ** 0 + y, "0*x+y": lambda x, y, v: 0.0 * x + y, "(C2+3)*x": lambda x, y, v: (Constant(2.0) + 3.0) * x,
+        "exp(C0)*x": lambda x, y, v: F.exp(Constant(0.0)) * x, "x/(C4/2)": lambda x, y, v: x / (Constant(4.0) / 2.0),
+        "x**(C1+1)": lambda x, y, v: x ** (Constant(1.0) + 1.0), "p*x": lambda x, y, v: Parameter("p", 2.0) * x,
+        "x/p": lambda x, y, v: x / Parameter("p", 2.0), "p/x": lambda x, y, v: Parameter("p", 2.0) / x,
+        "x**p": lambda x, y, v: x ** Parameter("p", 2.0), "x+p0": lambda x, y, v: x + Parameter("p0", 0.0),
+        "p1*x": lambda x, y, v: Parameter("p1", 1.0) * x, "x*0+1/y": lambda x, y, v: x * 0.0 + 1.0 / y,
     }
 
 
-def alphabet_problem(shape, sense, rhs, objsense="min"):
+RHS_KINDS = ["float", "np.float64", "np.float32", "Constant", "Parameter", "0-d", "int"]
+
+
+def typed_rhs(rhs, kind):
+    from optyx.core.expressions import Constant
+    from optyx.core.parameters import Parameter
+
+    if kind == "np.float64":
+        return np.float64(rhs)
+    if kind == "np.float32" and float(np.float32(rhs)) == rhs:
+        return np.float32(rhs)
+    if kind == "Constant":
+        return Constant(rhs - 1.0) + 1.0
+    if kind == "Parameter":
+        return Parameter("rhs", rhs)
+    if kind == "0-d":
+        return np.array(rhs)
+    if kind == "int" and float(rhs).is_integer():
+        return int(rhs)
+    return float(rhs)
+
+
+def alphabet_problem(shape, sense, rhs, objsense="min", rhs_kind="float"):
     from optyx import Problem, Variable, VectorVariable
 
     x = Variable("x", lb=1.0, ub=10.0)
@@ -886,7 +957,8 @@ def alphabet_problem(shape, sense, rhs, objsense="min"):
     obj = x + 2.0 * y + v.sum()
     P = Problem()
     P.minimize(obj) if objsense == "min" else P.maximize(obj)
-    P.subject_to(lhs <= rhs if sense == "<=" else lhs >= rhs if sense == ">=" else lhs.eq(rhs))
+    r = typed_rhs(rhs, rhs_kind)
+    P.subject_to(lhs <= r if sense == "<=" else lhs >= r if sense == ">=" else lhs.eq(r))
     return P, lhs, [x, y] + list(v)
 
 
@@ -935,7 +1007,10 @@ def independent_feasibility(lhs, sense, rhs, variables, values, tol=None, slack=
 
 
 def alphabet_check(case):
-    P, lhs, vs = alphabet_problem(case["shape"], case["sense"], case["rhs"], case["objsense"])
+    try:
+        P, lhs, vs = alphabet_problem(case["shape"], case["sense"], case["rhs"], case["objsense"], case.get("rhs_kind", "float"))
+    except Exception as e:  # noqa: BLE001 - an operand type the comparison refuses: never silently dropped (C10)
+        return None, "unbuildable:" + type(e).__name__
     with warnings.catch_warnings(), np.errstate(all="ignore"):
         warnings.simplefilter("ignore")
         try:
@@ -978,7 +1053,7 @@ def run_operator_alphabet(rep, rng, thorough):
                 for method in ["auto"] + LP_METHODS + ["SLSQP", "trust-constr", "COBYLA"]:
                     i += 1
                     case = {"shape": shape, "sense": sense, "rhs": rhs, "method": method,
-                            "objsense": "min" if (i // 9) % 2 == 0 else "max"}
+                            "objsense": "min" if (i // 9) % 2 == 0 else "max", "rhs_kind": RHS_KINDS[(i // 9) % len(RHS_KINDS)]}
                     if method not in LP_METHODS:
                         # NLP solves of infeasible problems run to the iteration limit (≈1 s each): the time goes
                         # where a wrong OPTIMAL can come from cheaply.  "auto" is always run when optyx itself
